@@ -29,6 +29,7 @@ JOBS = {'quick': 2, 'thorough': 16}
 
 CLASSES = ['info_target', 'Info_Target', 'INFO_TARGET', 'logic_relay', 'func_brush', 'ß_ent', 'worldspawn', '']
 NAMES = ['door', 'Door', 'DOOR', 'door1', 'relay', 'Relay_A', 'ß', 'SS', '', 'x*']
+QUERIES = ['door*', 'DOOR*', 'd*', 'Rel*', 'ß*', '*', 'info_*', 'doo']  # wildcard (prefix) searches and a bare prefix
 KEY_CLASS = ['classname', 'ClassName', 'CLASSNAME']
 KEY_NAME = ['targetname', 'TargetName', 'TARGETNAME']
 
@@ -86,7 +87,7 @@ class Hist:
                           f'by-target-desync:{op}', {'key': k, 'stale': len(extra), 'missing': len(missing)})
                 return
         # --- search() under several casings
-        for name in NAMES + CLASSES:
+        for name in NAMES + CLASSES + QUERIES:
             if not name:
                 continue
             for q in {name, name.upper(), name.lower()}:
